@@ -5,10 +5,10 @@ import os
 from . import common as c
 
 SUPPORT = ["Cache/PCache.v", "Cache/PCacheArr.v", "Cache/PCacheProbe.v", "Cache/PCacheInv.v", "Cache/PCacheProofs.v",
-           "Cache/Rcu.v", "Cache/RcuProofs.v", "Cache/C08Thm.v", "Cache/C08Model.v", "Cache/AccessProofs.v", "Cache/C09Thm.v"]
+           "Cache/Rcu.v", "Cache/RcuProofs.v", "Cache/C08Thm.v", "Cache/C08Model.v", "Cache/AccessProofs.v", "Cache/PoolDiscipline.v", "Cache/C09Thm.v"]
 
 CLAIM = {
-    "gens": ["CacheConsts", "Access"],
+    "gens": ["CacheConsts", "Access", "PoolUse"],
     "category": "proof",
     "text": ("Theorems (Coq): ProgramCache.Get/Compute of internal/caching/pcache.go modelled as small-step thread programs (atomic load; "
              "probe of the immutable snapshot; lock; re-check; compute; copy-on-write add; atomic store; unlock) over the proved "
@@ -19,7 +19,11 @@ CLAIM = {
              "jitdec/pools.go on every run: every access to ProgramCache.p, _ProgramMap fields, valueCache, fieldCache is atomic / on a "
              "not yet published object / an immutable read / under its lock, except in functions no concurrent API call reaches "
              "(exact exception list is part of the theorem); the source text of Get/Compute/Reset/add the model was transcribed from is "
-             "pinned. Everything else of the property (pools, generated code, module registration, the real Go memory model, the "
+             "pinned. pool_discipline: for the two pools that carry state between calls (jitdec decoder stacks: clean-on-put; native "
+             "state machines: init-on-get) the event lists (Get/Reset/Use/Put) of every control-flow path of every user are regenerated "
+             "from the Go and C sources (Gen/PoolUse.v) and, for every interleaving, every pooled object handed out and every way a use "
+             "can end (errors leave any state), no call reads state left behind by another call and the stack pool only holds clean stacks. "
+             "Everything else of the property (pools, generated code, module registration, the real Go memory model, the "
              "public API under concurrency, sync.Pool recycling after failing calls) is covered only by -race / plain runs against a fresh-process oracle."),
     "note": ("Trusted: Coq kernel, translator (syntactic classification, static call graph), extraction, Go race detector and harness. "
              "sync.Pool recycling, registerModule and the JIT-generated code are outside the model."),
@@ -38,7 +42,8 @@ def run(ctx):
         "a probe of a snapshot is one step: justified by C08_access_discipline (no write to a published _ProgramMap)",
         "each call is its own thread; schedules bounded only by len < 2^30 (no uint32 overflow of the capacity)",
         "the compile callback is a deterministic total function of the type returning a non-nil program or an error",
-        "pools (sync.Pool), loader.registerModule, generated code and all other packages' shared state are NOT modelled: tested with -race only",
+        "pool_discipline abstracts an object to Unknown/Clean/Dirty and a user function to per-path event lists (if: both arms with identifier conditions kept consistent, loops: 0-2 iterations, consecutive uses merged); that the native routines initialise the machine is read off the C sources (the blobs are assembled from them); the encoder stack pool (reset only on error, relies on balanced generated code), buffer pools and sync.Pool itself are not modelled",
+        "other pools (sync.Pool), loader.registerModule, generated code and all other packages' shared state are NOT modelled: tested with -race only",
         "reachability in access_discipline = static call graph over the packages that import internal/caching or internal/encoder/vars; function values count as reachable; tests and verif hooks are excluded",
     ]
     p_ok = c.standard_P(ctx, CLAIM["gens"], SUPPORT)
@@ -118,7 +123,9 @@ def run(ctx):
             real_fail.append(("the process died while %d goroutines race first-use compilation (exit %d)" % (g, rc1),
                               {"mode": "api", "seed": s, "args": " ".join(args), "output": o1[-6000:]}))
             continue
-        rc2, o2 = c.sh([hb, "-mode", "apiseq", "-out", aseq] + args, env=env, timeout=3000, check=False)
+        # the sequential oracle runs in the build without -race (same results, several times faster)
+        okp, hplain0 = c.build_harness("c08")
+        rc2, o2 = c.sh([hplain0 if okp else hb, "-mode", "apiseq", "-out", aseq] + args, env=env, timeout=3000, check=False)
         if rc2 != 0:
             problems.append(("T", "sequential oracle run failed: " + o2[-500:]))
             continue
@@ -146,7 +153,7 @@ def run(ctx):
             oracle = [l.split("\t") for l in open(po).read().splitlines()]
             for name, exe, g in (("plain", hplain, 8), ("race", hb, 8)) + ((("plain-32", hplain, 32),) if not quick else ()):
                 pf = os.path.join(work, "pool." + name)
-                args = ["-mode", "pool", "-flood", str(nflood if name != "race" else nflood // 3), "-g", str(g), "-seed", str(seed), "-out", pf]
+                args = ["-mode", "pool", "-flood", str(nflood if name != "race" else nflood // 6), "-g", str(g), "-seed", str(seed), "-out", pf]
                 rc1, o1 = c.sh([exe] + args, env=env, timeout=1200, check=False)
                 if rc1 == 66 or "WARNING: DATA RACE" in o1:
                     real_fail.append(("data race reported while failing calls and probes share the pools", {"mode": "pool", "seed": seed, "args": " ".join(args), "race_report": o1[-6000:]}))
